@@ -107,6 +107,13 @@ fn derive_struct_tostring(
     if !struct_def.generics.is_empty() {
         return Err(generic_not_supported("struct", &struct_def.name, attr_ptr));
     }
+    check_field_types(
+        TO_STRING_TRAIT,
+        "struct",
+        &struct_def.name,
+        struct_def.fields.iter().map(|(_, ty)| ty),
+        attr_ptr,
+    )?;
 
     let method = ast::Fn {
         attrs: Vec::new(),
@@ -137,6 +144,13 @@ fn derive_enum_tostring(
     if !enum_def.generics.is_empty() {
         return Err(generic_not_supported("enum", &enum_def.name, attr_ptr));
     }
+    check_field_types(
+        TO_STRING_TRAIT,
+        "enum",
+        &enum_def.name,
+        enum_def.variants.iter().flat_map(|(_, tys)| tys.iter()),
+        attr_ptr,
+    )?;
 
     let method = ast::Fn {
         attrs: Vec::new(),
@@ -168,6 +182,13 @@ fn derive_struct_tojson(
             attr_ptr,
         ));
     }
+    check_field_types(
+        TO_JSON_TRAIT,
+        "struct",
+        &struct_def.name,
+        struct_def.fields.iter().map(|(_, ty)| ty),
+        attr_ptr,
+    )?;
 
     let method = ast::Fn {
         attrs: Vec::new(),
@@ -198,6 +219,13 @@ fn derive_enum_tojson(
     if !enum_def.generics.is_empty() {
         return Err(generic_not_supported_json("enum", &enum_def.name, attr_ptr));
     }
+    check_field_types(
+        TO_JSON_TRAIT,
+        "enum",
+        &enum_def.name,
+        enum_def.variants.iter().flat_map(|(_, tys)| tys.iter()),
+        attr_ptr,
+    )?;
 
     let method = ast::Fn {
         attrs: Vec::new(),
@@ -522,6 +550,8 @@ fn concat_parts(parts: Vec<Expr>, attr_ptr: &MySyntaxNodePtr) -> Expr {
 fn call_to_string(value: Expr, ty: Option<&ast::TypeExpr>, attr_ptr: &MySyntaxNodePtr) -> Expr {
     if matches!(ty, Some(ast::TypeExpr::TString)) {
         value
+    } else if let Some(func) = ty.and_then(primitive_to_string_fn) {
+        call_function(func, vec![value], attr_ptr)
     } else {
         Expr::ECall {
             func: Box::new(Expr::EField {
@@ -536,6 +566,13 @@ fn call_to_string(value: Expr, ty: Option<&ast::TypeExpr>, attr_ptr: &MySyntaxNo
 }
 
 fn call_to_json(value: Expr, ty: Option<&ast::TypeExpr>, attr_ptr: &MySyntaxNodePtr) -> Expr {
+    // Numbers other than int32 are serialized by their to_string builtin
+    if let Some(num) = ty
+        && !matches!(num, ast::TypeExpr::TUnit | ast::TypeExpr::TBool)
+        && let Some(func) = primitive_to_string_fn(num)
+    {
+        return call_function(func, vec![value], attr_ptr);
+    }
     match ty {
         // String needs to be quoted and escaped in JSON
         Some(ast::TypeExpr::TString) => {
@@ -544,17 +581,8 @@ fn call_to_json(value: Expr, ty: Option<&ast::TypeExpr>, attr_ptr: &MySyntaxNode
         }
         // Booleans are serialized as true/false (lowercase)
         Some(ast::TypeExpr::TBool) => call_function("bool_to_json", vec![value], attr_ptr),
-        // Numbers can be serialized directly via to_string
-        Some(ast::TypeExpr::TInt8)
-        | Some(ast::TypeExpr::TInt16)
-        | Some(ast::TypeExpr::TInt32)
-        | Some(ast::TypeExpr::TInt64)
-        | Some(ast::TypeExpr::TUint8)
-        | Some(ast::TypeExpr::TUint16)
-        | Some(ast::TypeExpr::TUint32)
-        | Some(ast::TypeExpr::TUint64)
-        | Some(ast::TypeExpr::TFloat32)
-        | Some(ast::TypeExpr::TFloat64) => Expr::ECall {
+        // int32 is serialized via its inherent to_string (the other numbers: see above)
+        Some(ast::TypeExpr::TInt32) => Expr::ECall {
             func: Box::new(Expr::EField {
                 expr: Box::new(value),
                 field: AstIdent::new(TO_STRING_FN),
@@ -579,6 +607,69 @@ fn call_to_json(value: Expr, ty: Option<&ast::TypeExpr>, attr_ptr: &MySyntaxNode
             astptr: *attr_ptr,
         },
     }
+}
+
+/// The builtin `<type>_to_string` function of a primitive field type. `int32` keeps its
+/// inherent `to_string` method and `string` needs no conversion.
+fn primitive_to_string_fn(ty: &ast::TypeExpr) -> Option<&'static str> {
+    match ty {
+        ast::TypeExpr::TUnit => Some("unit_to_string"),
+        ast::TypeExpr::TBool => Some("bool_to_string"),
+        ast::TypeExpr::TInt8 => Some("int8_to_string"),
+        ast::TypeExpr::TInt16 => Some("int16_to_string"),
+        ast::TypeExpr::TInt64 => Some("int64_to_string"),
+        ast::TypeExpr::TUint8 => Some("uint8_to_string"),
+        ast::TypeExpr::TUint16 => Some("uint16_to_string"),
+        ast::TypeExpr::TUint32 => Some("uint32_to_string"),
+        ast::TypeExpr::TUint64 => Some("uint64_to_string"),
+        ast::TypeExpr::TFloat32 => Some("float32_to_string"),
+        ast::TypeExpr::TFloat64 => Some("float64_to_string"),
+        _ => None,
+    }
+}
+
+/// Field types that can have neither a `to_string` nor a `to_json` method: the derived code
+/// would only fail to type-check later, so they are refused here.
+fn check_field_types<'a>(
+    trait_name: &str,
+    kind: &str,
+    name: &AstIdent,
+    types: impl Iterator<Item = &'a ast::TypeExpr>,
+    attr_ptr: &MySyntaxNodePtr,
+) -> Result<(), Diagnostic> {
+    for ty in types {
+        let unsupported = match ty {
+            ast::TypeExpr::TTuple { .. }
+            | ast::TypeExpr::TArray { .. }
+            | ast::TypeExpr::TFunc { .. }
+            | ast::TypeExpr::TDyn { .. } => true,
+            ast::TypeExpr::TApp { ty, .. } => matches!(
+                ty.as_ref(),
+                ast::TypeExpr::TCon { path } if matches!(path.display().as_str(), "Vec" | "Ref")
+            ),
+            _ => false,
+        };
+        if unsupported {
+            return Err(Diagnostic::new(
+                Stage::other(DERIVE_STAGE),
+                Severity::Error,
+                format!(
+                    "`#[derive({})]` is not supported for {} `{}`: field type `{:?}` has no `{}` method",
+                    trait_name,
+                    kind,
+                    name.0,
+                    ty,
+                    if trait_name == TO_JSON_TRAIT {
+                        TO_JSON_FN
+                    } else {
+                        TO_STRING_FN
+                    }
+                ),
+            )
+            .with_range(attr_ptr.text_range()));
+        }
+    }
+    Ok(())
 }
 
 fn call_function(name: &str, args: Vec<Expr>, attr_ptr: &MySyntaxNodePtr) -> Expr {
